@@ -16,6 +16,14 @@ CHECKS = {
             "position x dihedral cell listed in the evidence.",
             "Trusted: numpy/LAPACK SVD, the harness' Rodrigues and dihedral formulas; degenerate (near-collinear) "
             "anchor sets are excluded as the property states.", "DESIGN.md#c15"),
+    "C14": ("exploration", "shadow-model stress of the real cell map + in-vivo brute-force monitor on every neighbour query",
+            "The real Cells object is driven through random add/remove/move/query histories (boundary, negative, "
+            "huge coordinates; sizes 2 and 5) against a shadow set and brute force, and every get_near_cells / "
+            "find_nearby_atoms call made inside whole-pipeline runs is compared with an all-atoms search over the "
+            "atoms residues own at that moment; misses and ghosts are classified by registration state and atom role.",
+            "Trusted: brute-force distance search; the classification of an inconsistent atom (unregistered / stale / "
+            "removed-still-registered) used to key known findings. Known findings cover only optimisation-phase "
+            "(cell size 5) bookkeeping of LP / flip / water / alcoholic / carboxylic atoms.", "DESIGN.md#c14"),
 }
 
 NOT_APPLICABLE = {}
